@@ -5,6 +5,7 @@ use crate::gen;
 use crate::refenc::*;
 use crate::rng::Rng;
 use cookie_factory::gen_simple;
+use crate::visit::veq;
 use serde_json::json;
 use tls_parser::*;
 
@@ -55,7 +56,7 @@ fn sslv3_ext_either(m: &AMsg, got: &TlsMessage) -> bool {
     if let AMsg::Hs(AHs::ServerHello(s)) = m {
         if s.version == 0x0300 {
             let alt = AMsg::Hs(AHs::ServerHello(ASh { ext: Some(vec![]), ..s.clone() }));
-            return *got == alt.expected();
+            return veq(got, &alt.expected());
         }
     }
     false
@@ -63,7 +64,7 @@ fn sslv3_ext_either(m: &AMsg, got: &TlsMessage) -> bool {
 
 /// element-wise comparison of a parsed message list with the normal forms (SSLv3 rule applied)
 fn msgs_match(orig: &[AMsg], got: &[TlsMessage]) -> bool {
-    orig.len() == got.len() && orig.iter().zip(got.iter()).all(|(m, g)| *g == normal_form(m).expected() || sslv3_ext_either(m, g))
+    orig.len() == got.len() && orig.iter().zip(got.iter()).all(|(m, g)| veq(g, &normal_form(m).expected()) || sslv3_ext_either(m, g))
 }
 
 fn serializable(r: &mut Rng, sz: gen::Sz) -> AMsg {
@@ -125,7 +126,7 @@ fn msg_case(ctx: &mut Ctx, m: &AMsg, label: &str) {
         _ => parse_tls_message_handshake(&bytes),
     };
     match &back {
-        Ok((rem, got)) if rem.is_empty() && (*got == nf.expected() || sslv3_ext_either(m, got)) => {
+        Ok((rem, got)) if rem.is_empty() && (veq(got, &nf.expected()) || sslv3_ext_either(m, got)) => {
             ctx.count("roundtrip.ok");
             // re-serialize the parsed value
             match got.serialize() {
@@ -411,7 +412,7 @@ pub fn run(ctx: &mut Ctx) {
         ctx.shape(&("ext", a.variant_name(), lc(want.len())));
         match gen_simple(gen_tls_extension(&v), Vec::new()) {
             Ok(b) if b == want => match parse_tls_extension(&b) {
-                Ok((rem, g)) if rem.is_empty() && g == v => ctx.count("ext.roundtrip"),
+                Ok((rem, g)) if rem.is_empty() && veq(&g, &v) => ctx.count("ext.roundtrip"),
                 other => ctx.violation(format!("c09:extension:{}:parse-back", a.variant_name()), json!({"bytes_hex": hex_short(&b), "parsed": format!("{:.200?}", other)})),
             },
             other => ctx.violation(
@@ -427,7 +428,7 @@ pub fn run(ctx: &mut Ctx) {
         ctx.eval();
         match gen_simple(gen_tls_extensions(&vs), Vec::new()) {
             Ok(b) if b == w.b => match parse_tls_extensions(&b[2..]) {
-                Ok((rem, g)) if rem.is_empty() && g == vs => ctx.count("ext.roundtrip"),
+                Ok((rem, g)) if rem.is_empty() && veq(&g, &vs) => ctx.count("ext.roundtrip"),
                 other => ctx.violation("c09:extensions-list:parse-back".into(), json!({"bytes_hex": hex_short(&b), "parsed": format!("{:.200?}", other)})),
             },
             other => ctx.violation("c09:extensions-list:bytes-differ-from-reference".into(), json!({"serialized": format!("{:.200?}", other.map(|b| hex_short(&b))), "reference_hex": hex_short(&w.b)})),
